@@ -84,30 +84,49 @@ func ruleCNV1(p *Program) *RuleResult {
 		if err != nil {
 			return r.anchorFail(err)
 		}
-		var toCalls []*ssa.Call
-		for _, b := range fn.Blocks {
-			for _, ins := range b.Instrs {
-				if c, ok := ins.(*ssa.Call); ok {
-					if sc := c.Common().StaticCallee(); sc != nil && strings.HasPrefix(sc.Name(), "To") && strings.HasSuffix(fnPkgPath(sc), "/funcs/impl") {
-						toCalls = append(toCalls, c)
+		// which To* conversions the function reaches (directly, through a helper, or
+		// through a function value), and on what
+		isTo := func(sc *ssa.Function) bool {
+			return sc != nil && sc.Signature.Recv() == nil && strings.HasPrefix(sc.Name(), "To") && strings.HasSuffix(fnPkgPath(sc), "/funcs/impl")
+		}
+		theInput := aval{k: kSlice, n: 1, elems: []aval{nonnil("the-input")}}
+		type toObs struct {
+			sc   *ssa.Function
+			args []aval
+		}
+		observe := func(toRes aval, nargs int) (*result, []toObs) {
+			var seen []toObs
+			an := newAnalyzer()
+			an.maxBlocks = 250
+			an.fnModel = func(sc *ssa.Function, args []aval) (aval, bool) {
+				if !isTo(sc) {
+					return aval{}, false
+				}
+				for _, o := range seen {
+					if o.sc == sc && eqVals(o.args, args) {
+						return toRes, true
 					}
 				}
+				seen = append(seen, toObs{sc, args})
+				return toRes, true
 			}
+			res := an.analyze(fn, []aval{nonnil("ctx"), theInput, sliceLen(nargs)})
+			return res, seen
 		}
 		r.count("pairs", 1)
 		key := "ConvertsTo" + T
-		if len(toCalls) != 1 || toCalls[0].Common().StaticCallee() != toFn {
+		_, seen := observe(okTuple(coll(st.strItem("x"))), 0)
+		if len(seen) != 1 || seen[0].sc != toFn {
 			var names []string
-			for _, c := range toCalls {
-				names = append(names, c.Common().StaticCallee().Name())
+			for _, o := range seen {
+				names = append(names, o.sc.Name())
 			}
 			r.bad(key+"|calls", fmt.Sprintf("ConvertsTo%s calls %v", T, names), p.pos(fn.Pos()), "convertsTo"+T+"() must be computed from to"+T+"() (exactly one call of impl.To"+T+")")
 			continue
 		}
-		// the conversion receives this call's own input and arguments
-		c := toCalls[0].Common()
-		if len(c.Args) < 3 || c.Args[1] != ssa.Value(fn.Params[1]) {
-			r.bad(key+"|input", "To"+T+" is not applied to the input collection", p.instrPos(toCalls[0]), "convertsTo"+T+"() tests a different value than the one it was called on")
+		// the conversion receives this call's own input
+		if a := seen[0].args; len(a) < 3 || a[1].k != kSlice || a[1].n != 1 || len(a[1].elems) != 1 || !hasNote(a[1].elems[0], "the-input") {
+			r.bad(key+"|input", "To"+T+" is not applied to the input collection", p.pos(fn.Pos()), "convertsTo"+T+"() tests a different value than the one it was called on")
 			continue
 		}
 		for _, tc := range []struct {
@@ -125,10 +144,7 @@ func ruleCNV1(p *Program) *RuleResult {
 					continue
 				}
 				r.count("hypotheses", 1)
-				an := newAnalyzer()
-				an.maxBlocks = 250
-				an.pin[toCalls[0]] = tc.res
-				res := an.analyze(fn, []aval{nonnil("ctx"), sliceLen(1), sliceLen(n)})
+				res, _ := observe(tc.res, n)
 				got := -3
 				if len(res.rets) == 1 && retIsOK(res.rets[0]) && len(res.hazards) == 0 {
 					got = collTruth(res.rets[0].vals[0])
